@@ -109,6 +109,43 @@ def target_aliases(inst: Install) -> set[str]:
     return out
 
 
+def check_success_after_install(run: Run) -> None:
+    from ..cfg import CFG, branch_conditions
+    from ..fsmodel import names_in
+    run.rule("R16.8", "octave_write acknowledges success only for what is on disk: every return of the success envelope in WriteTool.execute is either dominated by os.replace(temp, target) or is the explicit dry run (control-dependent on the caller's corrections_only flag)", 2)
+    from .c11 import flag_vars
+
+    mod = run.project.mod("mcp.write")
+    fi = mod.func("WriteTool.execute")
+    cfg = CFG(fi.node)
+    replaces = [n.id for n in cfg.nodes if n.ast is not None and n.kind == "stmt" and any(isinstance(c, ast.Call) and ast.unparse(c.func) == "os.replace" for c in ast.walk(n.ast))]
+    if not replaces:
+        raise AnalysisError("WriteTool.execute: os.replace not found")
+    # the success envelope: the variable returned by the return statement that os.replace dominates
+    env = None
+    for n in cfg.nodes:
+        if n.kind == "stmt" and isinstance(n.ast, ast.Return) and isinstance(n.ast.value, ast.Name) and any(cfg.dominated_by(n.id, r) for r in replaces):
+            env = n.ast.value.id
+    if env is None:
+        raise AnalysisError("WriteTool.execute: success return after os.replace not found")
+    dry = flag_vars(fi, ("corrections_only",))
+    if not dry:
+        raise AnalysisError("WriteTool.execute: corrections_only flag not found")
+    n_ret = 0
+    for n in cfg.nodes:
+        if n.kind == "stmt" and isinstance(n.ast, ast.Return) and isinstance(n.ast.value, ast.Name) and n.ast.value.id == env:
+            n_ret += 1
+            after = any(cfg.dominated_by(n.id, r) for r in replaces)
+            conds = branch_conditions(cfg, n.id)
+            is_dry = any(val is True and (dry & names_in(t)) for t, val in conds)
+            ok = after or is_dry
+            run.instance("R16.8", mod.loc(n.ast), f"WriteTool.execute: `return {env}` " + ("after os.replace" if after else ("under the corrections_only dry run" if is_dry else "BEFORE the install and not a dry run")), ok=ok)
+            if not ok:
+                run.violation("R16.8", mod, fi.qualname, f"return {env} before os.replace (not a dry run)", f"a success envelope (with canonical_hash of the canonical text) is returned without the file having been installed and without corrections_only: the bytes on disk are whatever was there before (e.g. the same text with CRLF line endings), so status=success and canonical_hash describe a file that does not exist")
+    if n_ret < 2:
+        raise AnalysisError(f"WriteTool.execute: only {n_ret} return(s) of the success envelope found")
+
+
 def check(run: Run) -> None:
     res = Resolver(run.project)
     installs = install_functions(run, res)
@@ -148,6 +185,7 @@ def check(run: Run) -> None:
     # whole-module check that no module-level code mutates the filesystem
     for inst in installs:
         _check_install(run, inst, res)
+    check_success_after_install(run)
 
 
 def _allowed_role(inst: Install | None, call: ast.Call, eff: str) -> tuple[bool, str]:
